@@ -15,7 +15,7 @@ PROPERTY = "C16"
 LEVEL = "exploration"
 SHARDS = {"quick": 8, "thorough": 16}
 BUDGET = {"quick": 25.0, "thorough": 420.0}
-REQUIRE = {"ops_applied": 20000, "focus_moved_by_mutation": 100, "errors_matched": 100, "large_list_ops_focus_above_256": 300, "large_list_noop_focus_assignments": 20}
+REQUIRE = {"ops_applied": 20000, "focus_moved_by_mutation": 100, "errors_matched": 100, "large_list_ops_focus_above_256": 300, "large_list_noop_focus_assignments": 20, "twin_items_assigned": 500, "op:set_twin": 500, "empty_then_refill_histories": 3000, "random_histories": 1000}
 RULE = (
     "op histories over MonitoredFocusList / MonitoredList / SimpleFocusListWalker / SimpleListWalker / "
     "Pile, Columns, GridFlow .contents; exhaustive depth-1 over every (len 0..5, focus) state x the full op universe "
@@ -28,6 +28,7 @@ ASSUMES = [
     "items assigned by an operation are fresh objects (an assignment that re-inserts the focused object is not judged)",
     "focus-changed callback is judged only between non-empty states (entering/leaving the empty list has no position to report)",
     "'item following the removed ones' = first surviving item after the old focus position, else the last item",
+    "after sort() the focus may designate any item EQUAL (==) to the one it designated (equal twins are indistinguishable to list.index)",
     "a non-integer focus assignment must be rejected with TypeError or IndexError (either); list operations must raise exactly what list raises",
 ]
 
@@ -40,6 +41,17 @@ class Tok:
 
     def __lt__(self, o):
         return self.n < o.n
+
+    # value equality: fresh tokens have unique numbers, so equal means identical except for the deliberate
+    # "twins" (op set_twin / insert_twin): a distinct object equal to an item already in the list
+    def __eq__(self, o):
+        return isinstance(o, Tok) and self.n == o.n
+
+    def __ne__(self, o):
+        return not self.__eq__(o)
+
+    def __hash__(self):
+        return hash(self.n)
 
     def __repr__(self):
         return f"t{self.n}"
@@ -75,6 +87,11 @@ def apply_op(op, lst, new, before, focus_setter=None):
     try:
         if k == "set":
             lst[op[1]] = new[0]
+        elif k == "set_twin":
+            # assign an equal-but-distinct object over the item it equals
+            lst[op[1]] = new[0]
+        elif k == "insert_twin":
+            lst.insert(op[1], new[0])
         elif k == "setslice":
             lst[mkslice(op[1])] = new
         elif k == "setslice_gen":
@@ -133,7 +150,7 @@ def apply_op(op, lst, new, before, focus_setter=None):
 
 def n_new(op, n):
     k = op[0]
-    if k in ("set", "insert", "append"):
+    if k in ("set", "insert", "append", "set_twin", "insert_twin"):
         return 1
     if k in ("setslice", "setslice_gen", "extend", "extend_tuple", "extend_gen", "iadd", "iadd_gen"):
         c = op[2] if k.startswith("setslice") else op[1]
@@ -152,7 +169,7 @@ def shadow_apply(op, n, before):
         if op[1] is not None and before:
             tgt = before[op[1] % len(before)]
             for i, b in enumerate(before):
-                if b is tgt:
+                if b == tgt:  # list.remove removes the first EQUAL item
                     del sh[i]
                     break
         return sh
@@ -290,7 +307,7 @@ FLAVOURS = {f.name: f for f in [FMFL(), FML(), FSFLW(), FSLW(), FContainer("Pile
 
 
 class CTok(tuple):
-    """container item that is also orderable (for sort) and identity-compared"""
+    """container item that is also orderable (for sort)"""
 
     __slots__ = ()
 
@@ -301,18 +318,15 @@ class CTok(tuple):
     def __lt__(self, o):
         return self.n < o.n
 
-    def __eq__(self, o):
-        return self is o
-
-    def __ne__(self, o):
-        return self is not o
-
+    # plain tuple equality: two items are equal when they hold the same widget object and equal options
+    # (a "twin" of an item is a new tuple around the same widget)
     __hash__ = tuple.__hash__
 
 
 # ------------------------------------------------------------------ op universe
 
 IDX = list(range(-6, 7))
+BIG = [2**63, -(2**63) - 1, 10**30, 2**31, -(2**31) - 1]
 SL_BOUNDS = [None, *range(-6, 7)]
 STEPS = [None, 1, -1, 2, -2, 3, -3]
 
@@ -320,7 +334,15 @@ STEPS = [None, 1, -1, 2, -2, 3, -3]
 def universe(idx=IDX, bounds=SL_BOUNDS, steps=STEPS, full=True):
     ops = []
     for i in idx:
-        ops += [["set", i], ["del", i], ["insert", i], ["pop", i], ["focus", i]]
+        ops += [["set", i], ["del", i], ["insert", i], ["pop", i], ["focus", i], ["set_twin", i]]
+        if full:
+            ops.append(["insert_twin", i])
+    if full:
+        # indices beyond the machine word, booleans, None: list raises OverflowError / IndexError / TypeError
+        for big in BIG:
+            ops += [["set", big], ["del", big], ["insert", big], ["pop", big], ["focus", big]]
+        ops += [["insert", None], ["pop", None], ["insert", True], ["set", False], ["del", True]]
+        ops += [["delslice", [BIG[0], None, None]], ["delslice", [None, BIG[1], None]], ["setslice", [BIG[1], BIG[0], None], 1], ["setslice", [None, None, BIG[0]], 0]]
     for s, e, st in itertools.product(bounds, bounds, steps):
         sl = [s, e, st]
         ops.append(["delslice", sl])
@@ -348,6 +370,10 @@ def rand_op(rng, n):
     def rb():
         return None if rng.random() < 0.25 else ri()
 
+    if r < 0.02:
+        return [rng.choice(["set", "del", "insert", "pop", "focus"]), rng.choice([*BIG, None])]
+    if r < 0.05:
+        return [rng.choice(["set_twin", "set_twin", "insert_twin"]), ri()]
     if r < 0.10:
         return ["set", ri()]
     if r < 0.20:
@@ -430,6 +456,11 @@ class Session:
             self.history.pop()
             return True
         new = [self.fresh() for _ in range(n_new(op, n))]
+        if op[0] in ("set_twin", "insert_twin") and n and isinstance(op[1], int):
+            src = before[op[1] % n] if op[0] == "insert_twin" or -n <= op[1] < n else None
+            if src is not None:
+                new = [CTok((src[0], tuple(list(src[1])))) if isinstance(src, CTok) else Tok(src.n)]
+                ctx.count("twin_items_assigned")
         del self.log[:]
         exc_m = apply_op(op, self.model, new, before) if op[0] != "focus" else self.model_focus_exc(op, n)
         exc_i = apply_op(op, ml, new, before, None if flav.tracks else ml.set_focus)
@@ -539,15 +570,17 @@ class Session:
             return None
         if op[0] == "sort":
             tgt = before[f]
-            return {i for i, x in enumerate(after) if x is tgt}
+            # "the same item" is read up to ==, the way list.index / list.remove identify items: with an
+            # equal twin in the list either occurrence is accepted after a sort
+            return {i for i, x in enumerate(after) if x == tgt}
         if op[0] == "imul" and isinstance(op[1], int) and op[1] > 1:
             return f
         if f in sh:
             return sh.index(f)
         # focused item was removed
         k = op[0]
-        if k in ("set", "setslice", "setslice_gen"):
-            if k == "set":
+        if k in ("set", "set_twin", "setslice", "setslice_gen"):
+            if k in ("set", "set_twin"):
                 removed = [op[1] % n] if -n <= op[1] < n else []
             else:
                 removed = list(range(*mkslice(op[1]).indices(n)))
@@ -633,6 +666,22 @@ def run(ctx):
                     for op2 in tiny:
                         for op3 in tiny:
                             run_history(ctx, "MonitoredFocusList", n, f, [op1, op2, op3])
+    # directed: empty the list by every means, then refill it by every means (a stale focus index surviving the
+    # empty state shows on the refill), then one more op; deterministic, never skipped for time
+    idx = 0
+    empties = [["clear"], ["delslice", [None, None, None]], ["imul", 0], ["setslice", [None, None, None], 0], ["imul", -1]]
+    refills = [["iadd", 2], ["iadd", 1], ["extend", 3], ["extend", 1], ["append"], ["insert", 0], ["insert", 5], ["setslice", [0, 0, None], 2], ["setslice", [None, None, None], 3], ["extend_gen", 2], ["iadd_gen", 2]]
+    thirds = [["focus", 0], ["append"], ["reverse"], ["del", 0], ["iadd", 1]]
+    for flav in flavs:
+        for n in range(1, 5):
+            for f in range(n):
+                for e_op in empties:
+                    for r_op in refills:
+                        idx += 1
+                        if not ctx.mine(idx):
+                            continue
+                        run_history(ctx, flav, n, f, [e_op, r_op, thirds[idx // ctx.nshards % len(thirds)]])
+                        ctx.count("empty_then_refill_histories")
     # long lists: positions beyond the small-integer range of the interpreter (equal indices are then distinct
     # objects), focus just below / at / above 256 and near the end; one op and two ops relative to the focus
     rng = ctx.rng
@@ -667,7 +716,8 @@ def run(ctx):
                             ctx.count("large_list_noop_focus_assignments")
     # random histories
     k = 0
-    while ctx.more(1.0):
+    min_random = ctx.pick(150, 2000)  # per shard, whatever the machine load did to the time budget
+    while ctx.more(1.0) or k < min_random:
         k += 1
         flav = rng.choice(flavs)
         n = rng.randint(0, 12)
